@@ -263,6 +263,7 @@ def WConn.upd (w : WConn) (c : Nat) : Ev → WConn
                  | none => if w.greeted then w.limit else defaultMaxConcurrentStreams }
     else w
   | .goaway c' _ _ => if c' = c then { w with goneAway := true } else w
+  | .sclose c' => if c' = c then { w with opn := [] } else w
   | _ => w
 
 /-- Wire state of connection `c` after the trace `tr` (the specification-level reading). -/
@@ -397,6 +398,163 @@ def Mon.run (m : Mon) : List Ev → Except String Mon
 /-- The whole-trace verdict used by the soundness theorems. -/
 def accepts (strict : Bool) (tr : List Ev) : Bool :=
   match (Mon.init strict).run tr with
+  | .ok _ => true
+  | .error _ => false
+
+
+/-! ## GOAWAY trace monitor (C18) -/
+
+structure RSt where
+  body : BodyK := .none
+  /-- connections that carried HEADERS of this request, newest first -/
+  conns : List Nat := []
+  /-- pool selections so far -/
+  picks : Nat := 0
+  /-- selections the request is entitled to: the first one, one per retryable abort of a
+  replayable request, one per connection that went away while the request was queued on it -/
+  credits : Nat := 1
+  /-- RoundTrip has returned -/
+  returned : Bool := false
+  canceled : Bool := false
+deriving Repr, DecidableEq
+
+/-- What a GOAWAY / connection close obliges the client to do before the step is over. -/
+inductive Owe where
+  /-- the client abandons the stream (RST_STREAM) -/
+  | rst (c id : Nat)
+  /-- the request is handed to the pool again -/
+  | retry (r : Nat)
+  /-- RoundTrip of the request returns this error -/
+  | fail (r : Nat) (k : DoneK)
+deriving Repr, DecidableEq
+
+structure S18 where
+  strict : Bool := false
+  w : Nat → WConn := fun _ => {}
+  /-- per connection: (stream id, request) -/
+  owner : Nat → List (Nat × Nat) := fun _ => []
+  /-- merged GOAWAY code per connection -/
+  gaCode : Nat → Nat := fun _ => 0
+  rs : Nat → RSt := fun _ => {}
+  owe : List Owe := []
+  /-- (conn, stream): streams a GOAWAY of the current step left alone -/
+  keep : List (Nat × Nat) := []
+
+def ownerOf (l : List (Nat × Nat)) (id : Nat) : Option Nat :=
+  match l.find? (fun p => p.1 == id) with
+  | some p => some p.2
+  | none => none
+
+/-- The merged code `setGoAway` will store (wire-level reading: an earlier non-NO code wins). -/
+def S18.merged (s : S18) (c code : Nat) : Nat :=
+  if (s.w c).goneAway && s.gaCode c != 0 then s.gaCode c else code
+
+/-- Obligations created by GOAWAY(last, code) on `c` for one in-flight stream. -/
+def goAwayOwes (s : S18) (c last mc id : Nat) : List Owe :=
+  match classify last mc id with
+  | .keep => []
+  | k =>
+    .rst c id ::
+    (match ownerOf (s.owner c) id with
+     | none => []
+     | some r =>
+       let q := s.rs r
+       if q.returned || q.canceled then []
+       else if k = .failFirst then [.fail r .goAwayFirst]
+       else if shouldRetry q.body .gotGoAway then [.retry r]
+       else [.fail r .noReplay])
+
+/-- Obligations created by the server closing `c` for one in-flight stream. -/
+def closeOwes (s : S18) (c id : Nat) : List Owe :=
+  if id ∈ (s.w c).sEnd then []
+  else
+    match ownerOf (s.owner c) id with
+    | none => []
+    | some r =>
+      let q := s.rs r
+      if q.returned || q.canceled then []
+      else [.fail r (if (s.w c).goneAway then .goAwayConn else .connErr)]
+
+def S18.oweUpd (s : S18) : Ev → List Owe
+  | .goaway c last code =>
+    s.owe ++ ((s.w c).opn.map (goAwayOwes s c last (s.merged c code))).flatten
+  | .sclose c => s.owe ++ ((s.w c).opn.map (closeOwes s c)).flatten
+  | .crst c id _ => s.owe.erase (.rst c id)
+  | .pick r _ _ => s.owe.erase (.retry r)
+  | .done r k => s.owe.erase (.fail r k)
+  | _ => s.owe
+
+def bump (rs : Nat → RSt) (l : List Nat) : Nat → RSt :=
+  fun r => if r ∈ l then { rs r with credits := (rs r).credits + l.count r } else rs r
+
+/-- requests granted one more pool selection by a GOAWAY -/
+def goAwayGrants (s : S18) (c last mc : Nat) : List Nat :=
+  ((s.w c).opn.map (goAwayOwes s c last mc)).flatten.filterMap
+    (fun o => match o with | .retry r => some r | _ => none)
+
+def S18.rsUpd (s : S18) : Ev → Nat → RSt
+  | .req r b => setAt s.rs r { body := b }
+  | .cancel r => setAt s.rs r { s.rs r with canceled := true }
+  | .pick r _ _ => setAt s.rs r { s.rs r with picks := (s.rs r).picks + 1 }
+  | .hdr c _ r _ => setAt s.rs r { s.rs r with conns := c :: (s.rs r).conns }
+  | .done r _ => setAt s.rs r { s.rs r with returned := true }
+  | .goaway c last code =>
+    bump s.rs (goAwayGrants s c last (s.merged c code) ++ (s.w c).pend)
+  | .sclose c => bump s.rs (s.w c).pend
+  | _ => s.rs
+
+def S18.upd (s : S18) (e : Ev) : S18 :=
+  { strict := s.strict
+    w := fun c => (s.w c).upd c e
+    owner := match e with
+      | .hdr c id r _ => setAt s.owner c ((id, r) :: s.owner c)
+      | _ => s.owner
+    gaCode := match e with
+      | .goaway c _ code => setAt s.gaCode c (s.merged c code)
+      | _ => s.gaCode
+    rs := s.rsUpd e
+    owe := s.oweUpd e
+    keep := match e with
+      | .goaway c last code =>
+        s.keep ++ ((s.w c).opn.filter (fun id => classify last (s.merged c code) id == .keep)).map (fun id => (c, id))
+      | .eol => []
+      | _ => s.keep }
+
+def errKind : DoneK → Bool
+  | .goAwayConn => true
+  | .goAwayFirst => true
+  | .noReplay => true
+  | .gotGoAway => true
+  | .connErr => true
+  | _ => false
+
+/-- What C18 demands of one event in state `s` (state before the event). -/
+def check18 (s : S18) : Ev → Bool
+  | .hdr c id r es =>
+    wireCheck s.strict s.w (.hdr c id r es) && !((s.rs r).conns.contains c)
+  | .pick r c f =>
+    wireCheck s.strict s.w (.pick r c f) && decide ((s.rs r).picks < (s.rs r).credits)
+  | .crst c id _ => !(s.keep.contains (c, id))
+  | .done r k => !errKind k || s.owe.contains (.fail r k)
+  | .eol => s.owe.isEmpty
+  | _ => true
+
+def specState18 (strict : Bool) (tr : List Ev) : S18 := tr.foldl S18.upd { strict := strict }
+
+def why18 (s : S18) : Ev → String
+  | .hdr c id r _ => s!"HEADERS for request {r} (stream {id}) on conn {c}: conn after GOAWAY / reused for this request / ids / limit"
+  | .pick r c _ => s!"pool selection of conn {c} for request {r}: picks {(s.rs r).picks} credits {(s.rs r).credits} goneAway {(s.w c).goneAway}"
+  | .crst c id _ => s!"client reset stream {id} on conn {c} although GOAWAY covered it"
+  | .done r _ => s!"RoundTrip of request {r} returned an error that no GOAWAY / close explains"
+  | .eol => s!"{s.owe.length} obligations open at the end of the step, first: {repr s.owe.head?}"
+  | _ => "?"
+
+def run18 (s : S18) : List Ev → Except String S18
+  | [] => .ok s
+  | e :: es => if check18 s e then run18 (s.upd e) es else .error (why18 s e)
+
+def accepts18 (strict : Bool) (tr : List Ev) : Bool :=
+  match run18 { strict := strict } tr with
   | .ok _ => true
   | .error _ => false
 
